@@ -107,6 +107,15 @@ def _localar_build(par, n, a, o, p):
 OPS['LocalAR'] = (_localar_build, lambda v, ws, w, p: ((v[0] + 1) * 3) & 65535)
 
 
+def _ohmux_ref(v, ws, w, p):
+    m = mask(ws[2])
+    return ((v[2] if v[0] else 0) | (v[3] if v[1] else 0)) & m
+
+
+# a 2-way OneHotMux with arbitrary (not necessarily one-hot) selectors: the block ORs the selected inputs
+OPS['OneHotMux'] = (lambda par, n, a, o, p: py4hw.OneHotMux(par, n, [a[0], a[1]], [a[2], a[3]], o), _ohmux_ref)
+
+
 # Mealy: out = state + a (raw, reduced by the wire); the state is updated at the edge (see ref_trace)
 OPS['Mealy'] = (_mealy_build, None)
 OPS['BitSel'] = (_bitsel_build, lambda v, ws, w, p: (v[0] >> p['bit']) & 1)
@@ -137,7 +146,7 @@ def is_state(node):
 WIDTHS = [1, 1, 2, 3, 4, 7, 8, 9, 16, 31, 32, 33, 64]
 COMB_OPS_BASIC = ['And2', 'Or2', 'Xor2', 'Nand2', 'Not', 'Buf', 'Add', 'Sub', 'Mul', 'Neg', 'Mux2', 'Equal', 'Constant',
                   'ShiftLeftConstant', 'ShiftRightConstant', 'Range', 'Bit', 'ConcatenateLSBF', 'ConcatenateMSBF', 'SignExtend',
-                  'ZeroExtend', 'Repeat', 'EqualConstant', 'Sign', 'Abs', 'SignedMul', 'And', 'Or', 'Xor']
+                  'ZeroExtend', 'Repeat', 'EqualConstant', 'Sign', 'Abs', 'SignedMul', 'And', 'Or', 'Xor', 'OneHotMux']
 
 
 @st.composite
@@ -204,6 +213,9 @@ def netlists(draw, max_nodes=20, min_nodes=1, ops=None, n_regs=(0, 0), reg_opts=
         wa = a[1]
         if op == 'Mealy':
             new_node(op, [a[0]], wa)
+            continue
+        if op == 'OneHotMux':
+            new_node(op, [pick(1)[0], pick(1)[0], a[0], pick(wa)[0]], wa)
             continue
         if op == 'BitSel':
             new_node(op, [a[0]], 1, {'bit': draw(st.integers(0, wa - 1))})
